@@ -38,15 +38,25 @@ type corsPlan struct {
 	Random  int       `json:"random"`  // random configurations
 	ReqsPer int       `json:"reqsPer"` // random requests per random configuration
 	Shuffle bool      `json:"shuffle"` // also run the pool in a seeded shuffled order
+	Stacked bool      `json:"stacked"` // run the pool on the two-filter container as well
 }
 
 type corsCounters struct{ ran, later int }
 
 // world: what changes behind the container's back during a sequence
 type corsWorld struct {
-	u1    *restful.WebService
-	h     restful.RouteFunction
-	grown bool // /u1 also serves PUT
+	u1, u2 *restful.WebService
+	h      restful.RouteFunction
+	grown  bool // /u1 also serves PUT
+	shrunk bool // /u2 no longer serves PUT
+}
+
+func (w *corsWorld) shrink() {
+	if !w.shrunk {
+		w.u2.RemoveRoute("/u2/", "PUT")
+		w.u2.RemoveRoute("/u2", "PUT")
+		w.shrunk = true
+	}
 }
 
 func (w *corsWorld) grow() {
@@ -92,6 +102,7 @@ func corsContainerW(cfg *corsCfg, cnt *corsCounters, second *restful.CrossOrigin
 	u1.SetDynamicRoutes(true)
 	u1.Route(u1.GET("").To(h))
 	u2 := new(restful.WebService).Path("/u2")
+	u2.SetDynamicRoutes(true)
 	u2.Route(u2.GET("").To(h))
 	u2.Route(u2.PUT("").To(h))
 	if second != nil {
@@ -99,10 +110,10 @@ func corsContainerW(cfg *corsCfg, cnt *corsCounters, second *restful.CrossOrigin
 		u2.Filter(second.Filter)
 	}
 	c.Add(u1).Add(u2)
-	return c, &corsWorld{u1: u1, h: h}
+	return c, &corsWorld{u1: u1, u2: u2, h: h}
 }
 
-func corsRoutable(url string, grown bool) []string {
+func corsRoutable(url string, grown, shrunk bool) []string {
 	switch url {
 	case "/u1":
 		if grown {
@@ -110,6 +121,9 @@ func corsRoutable(url string, grown bool) []string {
 		}
 		return []string{"GET"}
 	case "/u2":
+		if shrunk {
+			return []string{"GET"}
+		}
 		return []string{"GET", "PUT"}
 	}
 	return []string{}
@@ -178,6 +192,11 @@ func runCorsCfg(tw *traceWriter, cfg corsCfg, reqs []corsReq) {
 			world.grow()
 			tworld.grow()
 		}
+		if i == 2*len(reqs)/3 {
+			// ... and a route is removed: /u2 no longer serves PUT
+			world.shrink()
+			tworld.shrink()
+		}
 		if !validHeaderValue(rq.Origin) || !validHeaderValue(rq.Acrh) || !validHeaderValue(rq.Acrm) {
 			continue
 		}
@@ -186,7 +205,7 @@ func runCorsCfg(tw *traceWriter, cfg corsCfg, reqs []corsReq) {
 		if proj.St == -2 {
 			continue
 		}
-		tw.emit(map[string]interface{}{"e": "creq", "req": rq, "routable": corsRoutable(rq.URL, world.grown), "ac": ac,
+		tw.emit(map[string]interface{}{"e": "creq", "req": rq, "routable": corsRoutable(rq.URL, world.grown, world.shrunk), "ac": ac,
 			"ran": proj.Ran, "later": proj.Later, "proj": proj, "twin": tproj, "panic": panicked})
 	}
 }
@@ -281,6 +300,11 @@ func runCors(planPath, outPath string, seed int64) {
 	tw := newTraceWriter(outPath)
 	defer tw.close()
 	for _, cfg := range p.Cfgs {
+		if p.Stacked {
+			tw.emit(map[string]interface{}{"e": "cfg", "cfg": cfg})
+			runCorsStacked(tw, cfg, p.Pool)
+			continue
+		}
 		runCorsCfg(tw, cfg, p.Pool)
 		if p.Shuffle {
 			sh := append([]corsReq{}, p.Pool...)
